@@ -14,6 +14,8 @@ CONSTANTS
   ACSTAMPCHECK = TRUE
   TRAVOFF = 1
   RETAINCHECK = TRUE
+  TT = 100
+  MTC = 100
 INVARIANTS Linearizable NoDeadlock ResizeSafe QuiescentOK ReadersNeverBlock IterWeak GhostOK
 PROPERTY NeverShrinks
 VIEW view
